@@ -34,7 +34,9 @@ static void interior(Rng& r, const std::string& sol, int n, long double* x) {
 }
 
 // policy 0: one handle re-used for every entry (the re-used handle is the current one); 1: three handles used round-robin (the re-used
-// handle is NOT the current one); 2: a fresh handle per entry, in a shuffled order
+// handle is NOT the current one); 2: a fresh handle per entry, in a shuffled order; 3: every entry initialised on its handle, its parameters
+// purged / changed, then initialised AGAIN on the same handle with the same name ("immediately after masa_init" must not depend on what the
+// handle held before); 4 (double only): masa_init and masa_get_name through the C entry points, the name read into one re-used, dirty buffer
 template <class S> static void c14(Rng& r, std::vector<std::string> names, int policy, int npts) {
   const std::string P = ST<S>::name();
   Model<S> m;
@@ -44,9 +46,26 @@ template <class S> static void c14(Rng& r, std::vector<std::string> names, int p
     const SolSpec* sp = find_sol(name);
     const std::string H = policy == 0 ? "cat" : policy == 1 ? "pool-" + std::to_string(seq % 3) : "own-" + std::to_string(seq);
     seq++;
-    hist("masa_init<" + P + ">(\"" + H + "\",\"" + name + "\")");
-    Outcome o = guarded([&] { masa_init<S>(H, name); }, false);
+    if (policy == 3) {
+      Outcome o0 = guarded([&] { masa_init<S>("again", name); }, false);
+      if (!o0.fatal && !o0.abnormal && sp && !sp->fixture) {
+        hist("modify '" + name + "' on handle 'again' before initialising it again");
+        CAP.begin();
+        if (name != "sod_1d" || kExceptions) masa_purge_default_param<S>();
+        for (auto& vn : vec_names<S>()) { std::vector<S> e3(3, S(7)); masa_set_vec<S>(vn, e3); }
+        CAP.end();
+      }
+    }
+    const std::string H3 = policy == 3 ? "again" : H;
+    hist(std::string(policy == 4 ? "C masa_init" : "masa_init<" + P + ">") + "(\"" + H3 + "\",\"" + name + "\")");
+    Outcome o = guarded([&] { if (policy == 4) ::masa_init(H3.c_str(), name.c_str()); else masa_init<S>(H3, name); }, false);
     LOG.count("catalogue_inits", 1);
+    if (policy == 4 && !o.fatal && !o.abnormal) {
+      static char cbuf[256]; static bool dirty = false;
+      if (!dirty) { memset(cbuf, '#', sizeof cbuf - 1); cbuf[sizeof cbuf - 1] = 0; dirty = true; }   // never cleaned between entries
+      CAP.begin(); int rc = ::masa_get_name(cbuf); CAP.end();
+      if (rc != 0 || name != cbuf) hviol("C14", "c-get_name-differs:" + name, "C masa_get_name returned '" + std::string(cbuf).substr(0, 60) + "' after C masa_init(\"" + name + "\")");
+    }
     if (o.fatal || o.abnormal) { hviol("C14", "listed-name-not-initialisable:" + name, "masa_init(\"" + name + "\") failed although masa_printid lists it"); continue; }
     std::string got; masa_get_name<S>(&got);
     if (got != name) hviol("C14", "get_name-differs:" + name, "masa_get_name returned '" + got + "' after masa_init(\"" + name + "\")");
@@ -134,8 +153,8 @@ int main(int argc, char** argv) {
       LOG.distinct("catalogue_names", n);
     }
     for (auto& s : catalogue()) if (!seen.count(s.name)) LOG.distinct("spec_entries_missing_from_build", s.name);
-    for (int policy = 0; policy < 3; policy++) {
-      if (prec == "d") c14<double>(r, nd, policy, policy == 0 ? 16 : 3); else c14<long double>(r, nl, policy, policy == 0 ? 16 : 3);
+    for (int policy = 0; policy < 5; policy++) {
+      if (prec == "d") c14<double>(r, nd, policy, policy == 0 ? 16 : 3); else if (policy < 4) c14<long double>(r, nl, policy, policy == 0 ? 16 : 3);
     }
   } else {
     if (prec == "d") c15<double>(r, nd, part, nparts); else c15<long double>(r, nl, part, nparts);
